@@ -14,6 +14,7 @@ import (
 	"sort"
 	"strings"
 	"time"
+	"unicode"
 
 	fzf "github.com/junegunn/fzf/src"
 	"github.com/junegunn/fzf/src/tui"
@@ -297,6 +298,9 @@ var families = []family{
 	flags("unicode", "--unicode", "--no-unicode"), flags("bold", "--bold", "--no-bold"), flags("black", "--black", "--no-black"),
 	flags("mouse", "--no-mouse"), flags("extended", "-x", "--extended", "+x", "--no-extended"), flags("multi-line", "--multi-line", "--no-multi-line"),
 	flags("filepath-word", "--filepath-word", "--no-filepath-word"), flags("ambidouble", "--ambidouble", "--no-ambidouble"),
+	{name: "listen", members: [][]string{{"--listen=1234"}, {"--listen", "localhost:2345"}, {"--listen-unsafe=3456"}, {"--listen-unsafe", "0.0.0.0:4567"}, {"--no-listen"}, {"--no-listen-unsafe"}}},
+	{name: "history", members: [][]string{{"--history=/tmp/verif-h1"}, {"--history", "/tmp/verif-h2"}, {"--no-history"}}},
+	{name: "preview", members: [][]string{{"--preview=echo {}"}, {"--preview", "cat {}"}, {"--no-preview"}}},
 }
 
 func override(r *vk.Run, rng *rand.Rand) {
@@ -475,6 +479,7 @@ func layering(r *vk.Run, rng *rand.Rand, w int) {
 	for k := 0; k < 6; k++ {
 		positional(r, rng, file)
 	}
+	malformed(r, rng, file)
 	fams := []family{valued("--prompt", "F> ", "E> ", "A> "), valued("--tabstop", "2", "3", "5"), valued("--layout", "default", "reverse", "reverse-list"), valued("--query", "f", "e", "a"), valued("--height", "11", "22%", "33")}
 	f := fams[rng.Intn(len(fams))]
 	vals := [][]string{f.members[0], f.members[2], f.members[4]} // file, env, argv values
@@ -529,6 +534,46 @@ func layering(r *vk.Run, rng *rand.Rand, w int) {
 	}
 }
 
+// malformed: an options file or $FZF_DEFAULT_OPTS that cannot be split into words (unterminated quote)
+// must be rejected with a message, never ignored.
+func malformed(r *vk.Run, rng *rand.Rand, file string) {
+	good := []string{"--tac", "--no-mouse", "--prompt 'p> '", "--bind 'ctrl-a:up'", "# comment\n--cycle", "--header \"h\""}
+	bad := []string{"--prompt 'abc", "--header \"it's", "--bind 'ctrl-a:up", "--query \"x", "'"}
+	var parts []string
+	for i := 0; i < rng.Intn(3); i++ {
+		parts = append(parts, good[rng.Intn(len(good))])
+	}
+	parts = append(parts, bad[rng.Intn(len(bad))])
+	sep := []string{" ", "\n"}[rng.Intn(2)]
+	content := strings.Join(parts, sep)
+	if strings.Contains(content, "#") {
+		sep = "\n"
+		content = strings.Join(parts, sep)
+	}
+	layer := rng.Intn(2)
+	os.Unsetenv("FZF_DEFAULT_OPTS_FILE")
+	os.Unsetenv("FZF_DEFAULT_OPTS")
+	if layer == 0 {
+		os.WriteFile(file, []byte(content+"\n"), 0o644)
+		os.Setenv("FZF_DEFAULT_OPTS_FILE", file)
+	} else {
+		os.Setenv("FZF_DEFAULT_OPTS", content)
+	}
+	_, err, pan, _ := safeParse(true, nil)
+	os.Unsetenv("FZF_DEFAULT_OPTS_FILE")
+	os.Unsetenv("FZF_DEFAULT_OPTS")
+	r.Eval(1)
+	r.Count("layering_cases", 1)
+	r.Count("malformed_sources", 1)
+	r.Distinct(fmt.Sprintf("malformed source layer%d %q", layer, parts[len(parts)-1]))
+	wit := map[string]any{"layer": []string{"options file", "$FZF_DEFAULT_OPTS"}[layer], "content": content}
+	if pan != nil {
+		r.Violate(vk.Violation{Summary: fmt.Sprintf("C17: ParseOptions panicked on a malformed %s: %v", wit["layer"], pan), Witness: wit})
+	} else if err == nil {
+		r.Violate(vk.Violation{Summary: fmt.Sprintf("C17: a %s with an unterminated quote (%q) is accepted silently instead of being rejected", wit["layer"], content), Witness: wit})
+	}
+}
+
 func shellJoin(words []string) string {
 	var out []string
 	for _, w := range words {
@@ -577,6 +622,7 @@ func bindRoundTrip(r *vk.Run, rng *rand.Rand) {
 	var bindings []binding
 	var specParts []string
 	usedColonForm := false
+	putRejected := false
 	formSig := map[string]bool{}
 	for b := 0; b < nb && !usedColonForm; b++ {
 		var bd binding
@@ -598,10 +644,26 @@ func bindRoundTrip(r *vk.Run, rng *rand.Rand) {
 				}
 			}
 		}
+		if len(bd.keys[0]) > 1 && rng.Intn(5) == 0 {
+			bd.appendP = true
+			formSig["+prefix"] = true
+		}
 		na := 1 + rng.Intn(3)
 		var texts []string
 		for a := 0; a < na; a++ {
 			last := b == nb-1 && a == na-1
+			if rng.Intn(14) == 0 {
+				// put without an argument inserts the key itself: only valid when every key of the pair is printable
+				bd.actions = append(bd.actions, genAction{text: "put", name: "put"})
+				texts = append(texts, "put")
+				formSig["bare-put"] = true
+				for _, k := range bd.keys {
+					if ev, ok := keyEvent(k); !ok || !(ev.Type == tui.Rune && unicode.IsGraphic(ev.Char)) {
+						putRejected = true
+					}
+				}
+				continue
+			}
 			if rng.Intn(2) == 0 {
 				n := simpleActions[rng.Intn(len(simpleActions))]
 				bd.actions = append(bd.actions, genAction{text: n, name: n})
@@ -643,7 +705,11 @@ func bindRoundTrip(r *vk.Run, rng *rand.Rand) {
 			texts = append(texts, text)
 		}
 		bindings = append(bindings, bd)
-		specParts = append(specParts, strings.Join(bd.keys, ",")+":"+strings.Join(texts, "+"))
+		pre := ""
+		if bd.appendP {
+			pre = "+"
+		}
+		specParts = append(specParts, strings.Join(bd.keys, ",")+":"+pre+strings.Join(texts, "+"))
 	}
 	spec := strings.Join(specParts, ",")
 	vk.SetCase(map[string]any{"bind": spec})
@@ -651,6 +717,13 @@ func bindRoundTrip(r *vk.Run, rng *rand.Rand) {
 	r.Eval(1)
 	r.Count("bind_roundtrips", 1)
 	wit := map[string]any{"bind": spec, "bind_quoted": fmt.Sprintf("%q", spec)}
+	if putRejected {
+		r.Count("bind_put_rejections", 1)
+		if err == nil {
+			r.Violate(vk.Violation{Summary: fmt.Sprintf("C17: --bind %q binds an argument-less put to a key that is not a printable character and is accepted", spec), Witness: wit})
+		}
+		return
+	}
 	if err != nil {
 		r.Violate(vk.Violation{Summary: fmt.Sprintf("C17: generated bind specification rejected: %q: %v", spec, err), Witness: wit})
 		return
@@ -660,6 +733,17 @@ func bindRoundTrip(r *vk.Run, rng *rand.Rand) {
 	for _, bd := range bindings {
 		var acts []fzf.VerifAction
 		for _, a := range bd.actions {
+			if a.name == "put" && !a.has {
+				iso, err := fzf.VerifParseKeymap("a:put")
+				if err != nil || len(iso) != 1 {
+					r.Inconclusive("cannot parse a:put in isolation")
+					return
+				}
+				for _, v := range iso {
+					acts = append(acts, v...)
+				}
+				continue
+			}
 			if a.has {
 				iso, err := fzf.VerifParseActionList(a.name + "(x)")
 				if err != nil || len(iso) != 1 {
@@ -682,7 +766,12 @@ func bindRoundTrip(r *vk.Run, rng *rand.Rand) {
 				r.Inconclusive("cannot parse key " + k)
 				return
 			}
-			expect[ev] = acts
+			if bd.appendP {
+				// "+" in front of the list: appended to what the key was bound to before
+				expect[ev] = append(append([]fzf.VerifAction{}, expect[ev]...), acts...)
+			} else {
+				expect[ev] = acts
+			}
 		}
 	}
 	keys := make([]string, 0, len(formSig))
